@@ -64,6 +64,7 @@ func (in *Interp) zeroTime() Value {
 }
 
 func RegisterEnv(p *Program) {
+	registerPersist(p)
 	registerStrconv(p)
 	registerVFS(p)
 	registerTimeRand(p)
